@@ -380,11 +380,15 @@ func ParseContractFile(path string) (*CFile, error) {
 			rest := strings.TrimSpace(strings.TrimPrefix(t, "callsite "))
 			ord := 1
 			if i := strings.LastIndex(rest, "#"); i >= 0 {
-				n, err := strconv.Atoi(rest[i+1:])
-				if err != nil {
-					return nil, errf(l, "callsite ordinal: %v", err)
+				if rest[i+1:] == "*" {
+					ord = 0 // every call to that callee
+				} else {
+					n, err := strconv.Atoi(rest[i+1:])
+					if err != nil {
+						return nil, errf(l, "callsite ordinal: %v", err)
+					}
+					ord = n
 				}
-				ord = n
 				rest = rest[:i]
 			}
 			curCS = &CallsiteC{Callee: strings.TrimSpace(rest), Ord: ord}
